@@ -202,8 +202,17 @@ theorem sockSend_within (fds : Fds) (m : Mem) (fd iovs cnt f res : Nat) :
         · exact within_cons _ _ _ (optBytes_within m res 4 _ (by rw [bytesLE_length]; exact Nat.le_refl _) []) (within_nil _)
     · exact within_rE _ _
 
-theorem readdirEmit_within (m : Mem) (buf bufLen res : Nat) (names : List Nat) (hn : ∀ n ∈ names, n < 4294967248)
-    (hl : bufLen < 4294967296) : Within (readdirEmit m buf bufLen res names) [(buf, bufLen), (res, 4)] := by
+theorem exact_within (buf B bufLen res dNext : Nat) (ents : List (List Nat × Nat)) (C T : Nat) (hB : B ≤ bufLen) :
+    ∀ w ∈ exactDirents buf B dNext ents C T, Wr.within w [(buf, bufLen), (res, 4)] := by
+  intro w hw
+  unfold exactDirents at hw
+  simp only [List.mem_filter, Bool.and_eq_true, decide_eq_true_eq] at hw
+  intro a h1 h2
+  exact ⟨(buf, bufLen), by simp, by simp; omega, by simp; omega⟩
+
+theorem readdirEmit_within (m : Mem) (buf bufLen res : Nat) (names : List Nat) (ents : List (List Nat × Nat)) (dNext : Nat)
+    (hn : ∀ n ∈ names, n < 4294967248)
+    (hl : bufLen < 4294967296) : Within (readdirEmit m buf bufLen res names ents dNext) [(buf, bufLen), (res, 4)] := by
   have hres : ∀ v, Wr.within (Wr.bytes res (bytesLE 4 v)) [(buf, bufLen), (res, 4)] := fun v =>
     wr_skip _ _ _ (wr_in _ res 4 [] rfl (by show (bytesLE 4 _).length ≤ 4; rw [bytesLE_length]; exact Nat.le_refl _))
   unfold readdirEmit
@@ -212,17 +221,45 @@ theorem readdirEmit_within (m : Mem) (buf bufLen res : Nat) (names : List Nat) (
   · rename_i B C T hsome
     obtain ⟨_, hB⟩ := writeDirents_some names bufLen B C T hn hl hsome
     have hbuf : Wr.within (Wr.region buf B) [(buf, bufLen), (res, 4)] := wr_in _ buf bufLen _ rfl hB
-    split_all
-    all_goals first
-      | exact within_rE _ _
-      | exact within_cons _ _ _ (single_within _ _ _ hbuf) (within_nil _)
-      | exact within_cons _ _ _ (single_within _ _ _ (hres _)) (within_nil _)
-      | (refine within_cons _ _ _ ?_ (within_nil _)
-         intro w hw
-         simp only [List.mem_cons, List.not_mem_nil, or_false] at hw
-         rcases hw with rfl | rfl
-         · exact hbuf
-         · exact hres _)
+    have hex : ∀ w ∈ (if ents.map (fun e => e.1.length) = names then exactDirents buf B dNext ents C T else []),
+        Wr.within w [(buf, bufLen), (res, 4)] := by
+      intro w hw
+      split at hw
+      · exact exact_within buf B bufLen res dNext ents C T hB w hw
+      · cases hw
+    dsimp only
+    by_cases hpos : B > 0
+    · simp only [hpos, if_true]
+      by_cases hb : (!m.has buf B) = true
+      · rw [if_pos hb]; exact within_rE _ _
+      · rw [if_neg hb]
+        cases hwd : writeDirents B names C T with
+        | none =>
+          dsimp only
+          exact within_cons _ _ _ (single_within _ _ _ hbuf) (within_nil _)
+        | some v =>
+          dsimp only
+          by_cases hres4 : (!m.has res 4) = true
+          · rw [if_pos hres4]
+            refine within_cons _ _ _ ?_ (within_nil _)
+            intro w hw
+            simp only [List.mem_cons] at hw
+            rcases hw with rfl | hw
+            · exact hbuf
+            · exact hex w hw
+          · rw [if_neg hres4]
+            refine within_cons _ _ _ ?_ (within_nil _)
+            intro w hw
+            simp only [List.mem_cons, List.mem_append, List.not_mem_nil, or_false] at hw
+            rcases hw with rfl | hw | rfl
+            · exact hbuf
+            · exact hex w hw
+            · exact hres _
+    · simp only [hpos, if_false]
+      by_cases hres4 : (!m.has res 4) = true
+      · rw [if_pos hres4]; exact within_rE _ _
+      · rw [if_neg hres4]
+        exact within_cons _ _ _ (single_within _ _ _ (hres _)) (within_nil _)
 
 theorem fdReaddir_within (h : Host) (hh : HostNamesOk h) (fds : Fds) (m : Mem) (fd buf bufLen cookie res : Nat)
     (hl : bufLen < 4294967296) : Within (fdReaddir h fds m fd buf bufLen cookie res) [(buf, bufLen), (res, 4)] := by
@@ -237,7 +274,7 @@ theorem fdReaddir_within (h : Host) (hh : HostNamesOk h) (fds : Fds) (m : Mem) (
       · split
         · exact within_rE _ _
         · dsimp only
-          refine readdirEmit_within m buf bufLen res _ ?_ hl
+          refine readdirEmit_within m buf bufLen res _ _ _ ?_ hl
           intro n hn
           exact listing_ok h hh k n (List.mem_of_mem_drop (List.mem_of_mem_take hn))
 
